@@ -203,6 +203,7 @@ let with_fallback fx b =
 let run (t : string list) : string =
   match t with
   | ["parse_cmd"; h] -> with_fallback Params.query_numeric_fallible (bytes_of_hex h)
+  | ["parse_cmdt"; _; h] -> with_fallback Params.query_numeric_fallible (bytes_of_hex h)
   | ["parse_old"; h] -> with_fallback false (bytes_of_hex h)
   | ["parse_fix"; h] -> with_fallback true (bytes_of_hex h)
   | ["parse_disp"; h] ->
